@@ -46,6 +46,7 @@ Fixpoint parse_bond_lines (n : nat) (ls : list text) (acc : list ((Z * Z) * Z)) 
     do a1 <- to_int (bslice 0 l); do a2 <- to_int (bslice 1 l);
     if negb (valid_index n (a1 - 1)) then inl EParser else
     if negb (valid_index n (a2 - 1)) then inl EParser else
+    if Z.eqb a1 a2 then inl EParser else   (* a bond from an atom to itself is rejected *)
     do ty <- to_int (bslice 2 l);
     parse_bond_lines n r (dict_set (fun a b => Z.eqb (fst a) (fst b) && Z.eqb (snd a) (snd b)) (a1 - 1, a2 - 1) ty acc)
   end.
@@ -67,6 +68,11 @@ Definition parse_assignments (n : nat) (line : text) : res (list (Z * Z)) :=
   do cnt <- to_int (slice (fst p) (snd p) line);
   (* range(negative) is empty *)
   assignments n line (Z.to_nat cnt) 0.
+
+(* _parse_non_negative_atom_value_assignments (M  RAD, M  ISO) *)
+Definition parse_assignments_nonneg (n : nat) (line : text) : res (list (Z * Z)) :=
+  do a <- parse_assignments n line;
+  if existsb (fun p => Z.ltb (snd p) 0) a then inl EParser else ok a.
 
 Inductive pkind := PChg | PRad | PIso.
 Record extra := mkExtra { x_chg : option Z; x_rad : option Z; x_mass : option Z }.
@@ -95,8 +101,8 @@ Fixpoint attribute_block (n : nat) (ls : list text) (d : list (Z * extra)) (rese
       (* atom alias / group abbreviation: the next line is free text *)
       match r with [] => inl EParser | _ :: r' => attribute_block n r' d reset end
     else if starts_with (t "M  CHG") l then do a <- parse_assignments n l; attribute_block n r (merge_extra PChg a d) true
-    else if starts_with (t "M  RAD") l then do a <- parse_assignments n l; attribute_block n r (merge_extra PRad a d) true
-    else if starts_with (t "M  ISO") l then do a <- parse_assignments n l; attribute_block n r (merge_extra PIso a d) reset
+    else if starts_with (t "M  RAD") l then do a <- parse_assignments_nonneg n l; attribute_block n r (merge_extra PRad a d) true
+    else if starts_with (t "M  ISO") l then do a <- parse_assignments_nonneg n l; attribute_block n r (merge_extra PIso a d) reset
     else if text_eqb l (t "M  END") then ok (d, reset)
     else attribute_block n r d reset
   end.
